@@ -847,11 +847,16 @@ class MessageManager(ClientLike):
         msg = cd.MDF_ACTIVE_CLIENTS()
         msg.timestamp = time.perf_counter()
 
-        for i, (sock, module) in enumerate(self.modules.items()):
+        # iterate over a snapshot: delivering CLIENT_INFO can remove a failing recipient
+        for i, (sock, module) in enumerate(list(self.modules.items())):
             # if sock == self.listen_socket:
             #     continue
-            msg.client_mod_id[i] = module.mod_id
-            msg.client_pid[i] = module.pid
+            if sock not in self.modules:
+                continue
+            # the table holds MAX_ACTIVE_CLIENTS entries; CLIENT_INFO is still sent for the rest
+            if i < cd.MAX_ACTIVE_CLIENTS:
+                msg.client_mod_id[i] = module.mod_id
+                msg.client_pid[i] = module.pid
             self.send_client_info(module)
 
         msg.num_clients = len(self.modules) - 1
